@@ -80,6 +80,9 @@ func (r *recorded) get(d rhpmitm.Dir, i int) *rhpmitm.Msg {
 // recordHook records every message and forwards it untouched.
 func recordHook(rec *recorded) rhpmitm.Hook {
 	return func(m *rhpmitm.Msg) rhpmitm.Action {
+		if m.Synthetic {
+			return rhpmitm.Cut
+		}
 		rec.put(m)
 		return rhpmitm.Forward
 	}
@@ -129,9 +132,13 @@ func faultHook(muts []mutation, donor *recorded, custom customMut, ap *applied) 
 				ordered = append(ordered, mu)
 			}
 		}
+		filled := false
 		for _, mu := range ordered {
 			if dirOf(mu.Dir) != m.Dir || mu.Msg != m.Index {
 				continue
+			}
+			if m.Synthetic && mu.Op != "lenient" && mu.Op != "forge-sig" {
+				continue // only a host that invents its answer can fill a message the server never sent
 			}
 			if !touched {
 				orig, _ = m.Encode()
@@ -148,9 +155,13 @@ func faultHook(muts []mutation, donor *recorded, custom customMut, ap *applied) 
 				ap.mu.Unlock()
 				continue
 			}
+			filled = true
 			if a != rhpmitm.Forward {
 				act = a
 			}
+		}
+		if m.Synthetic && !filled {
+			return rhpmitm.Cut
 		}
 		if touched {
 			changed := act != rhpmitm.Forward
